@@ -34,5 +34,14 @@ class Packet:
         self.current_time: SimTime = 0
         self.perhop_time = {}  # used by port to record per-hop arrival times
 
+    def __copy__(self) -> "Packet":
+        # a copy (as made by the splitters) has per-hop stamps and priority
+        # tags of its own instead of sharing the two dictionaries
+        dup = self.__class__.__new__(self.__class__)
+        dup.__dict__.update(self.__dict__)
+        dup.priorities = dict(self.priorities)
+        dup.perhop_time = dict(self.perhop_time)
+        return dup
+
     def __repr__(self) -> str:
         return f"packet id: {self.packet_id}, flow id: {self.flow_id}, src: {self.src}, time: {self.time}, size: {self.size}"
